@@ -18,8 +18,8 @@ reg("C12", harness="c12_gf", level="exploration", deadline=(60, 300),
     technique="complete enumeration of a finite domain (all operand pairs/triples/table entries) against a bit-serial reference",
     level_text="The domain is finite (2^16 pairs, 2^24 triples, 256 constants x 32 entries, 256 GFNI matrices x 256 bytes) and is "
                "enumerated completely on the real gf_mul/gf_inv/gf_vect_mul_init/ec_init_tables code in the default and "
-               "GF_LARGE_TABLES builds; exhaustive:true means exactly that. ec_init_tables grids reach k = 1024 and include rows with few distinct, "
-               "constant and local-parity (zeros then ones) coefficients.",
+               "GF_LARGE_TABLES builds; exhaustive:true means exactly that. ec_init_tables grids reach k = 1024 and 67 600 / 75 000 coefficients (a value first met beyond entry 65536) "
+               "and include rows with few distinct, constant and local-parity (zeros then ones) coefficients.",
     level_note="trusted: the 20-line shift-and-xor reference multiply (ref/ref_gf.h) and, for GFNI, the SDM definition of GF2P8AFFINEQB "
                "(software model cross-checked with the real instruction on this host)",
     runs={"quick": [dict(flavour="sim"), dict(flavour="lgt")], "thorough": [dict(flavour="sim"), dict(flavour="lgt"), dict(flavour="rel")]},
@@ -39,7 +39,8 @@ reg("C16", harness="c16_dispatch", level="model_checking", deadline=(120, 600), 
                "of what the state offers; every distinct resolution vector is then materialised and a data-plane battery is run under it "
                "against independent references.",
     level_note="trusted: the SDM implication table in props/c16_dispatch.c, the hand-written mnemonic->extension table in engine/isaclass.py "
-               "(fails closed on unknown mnemonics), objdump. Unexamined features (SSSE3, POPCNT, BMI1/2, LZCNT) fixed to co-generational values.",
+               "(fails closed on unknown mnemonics), objdump. Unexamined features (SSSE3, POPCNT, BMI1/2, LZCNT) fixed to co-generational values; tzcnt (executes as bsf without BMI1) "
+               "in a variant selectable without AVX2/AVX-512 must be in the reviewed list (function, count) in props/c16_dispatch.c.",
     runs=[dict(flavour="sim")],
     rule="state = one dependency-closed assignment of the 25 examined CPUID.1:ECX/EAX, CPUID.7:EBX/ECX and XCR0 inputs; transition = one "
          "execution of a real <f>_dispatch_init under that assignment; invariants: executable, portable fallback, GFNI table/consumer pairing, "
@@ -55,7 +56,8 @@ reg("C20", harness="c20_zero", level="exploration", deadline=(120, 900),
                "(variant, length, placement) grid: zeros + non-zero suffix, non-zero prefix + zeros, sliding 64- and 128-byte non-zero windows, "
                "every start, fill ff/01/80 (every byte lane of a vector block non-zero at once); cancelling pairs: a 1/2/4/8-byte word with one non-zero byte "
                "repeated or two's-complement negated at distance W, 2W, 16..128 at every offset (add / sub / xor accumulation would cancel); long regions of 64 KiB .. 4 MiB x 7 start "
-               "alignments with a single non-zero byte at every offset of the first/last 640 bytes, around every power of two and every 4099th offset. Huge part: regions of 2^32-1 .. 2^32+16 MiB bytes "
+               "alignments with a single non-zero byte at every offset of the first/last 640 bytes, around every power of two and every 4099th offset; watched regions: hardware data "
+               "breakpoints on the byte in front of and the byte behind regions of 0..48 bytes at 16 interior offsets (an over-read that never crosses a page). Huge part: regions of 2^32-1 .. 2^32+16 MiB bytes "
                "(zero-page-backed mapping), all-zero and single non-zero bytes at the end / just beyond 4 GiB / in the middle, per variant.",
     level_note="lengths between N and 2^32-1 and multi-byte patterns other than runs (suffix/prefix/window) and cancelling pairs are not enumerated",
     runs=[dict(flavour="sim", part="sweep"), dict(flavour="sim", part="huge")],
@@ -71,7 +73,7 @@ reg("C04", harness="c04_crc", level="exploration", deadline=(240, 1500),
                "with a bit-serial reference anchored to 10 published check values. Every kernel call is made with poisoned caller-saved registers. "
                "Huge part: messages of 2^32 .. 2^32+16 MiB bytes (zeros plus one non-zero byte at the end / just beyond 4 GiB / near the start) on "
                "every vector kernel and the dispatched entries; expected values from the reference via a zero-run operator measured from the reference.",
-    level_note="the message buffer is write-protected during every call (a checksum only reads). CRCs are GF(2)-affine, Adler-32 affine mod 65521: the basis cases decide all data of those lengths only if the kernels have no "
+    level_note="the message buffer is write-protected during every call (a checksum only reads); every other call sets bits 63..32 of the registers that carry arguments narrower than 64 bits (unspecified by the psABI). CRCs are GF(2)-affine, Adler-32 affine mod 65521: the basis cases decide all data of those lengths only if the kernels have no "
                "data-dependent control flow (assumed; dense data checked). Lengths beyond the sweep are covered only by the listed large cases.",
     runs=[dict(flavour="sim", part="sweep"), dict(flavour="sim", part="huge")],
     rule="case = (implementation, len, placement, data, seed) or (implementation, len, impulse position/bit) or (implementation, len, split); "
@@ -83,7 +85,7 @@ reg("C03", harness="c03_ec", level="exploration", deadline=(240, 1500),
     level_text="For each of the 46 dot-product/encode symbols and the dispatched ec_encode_data/gf_vect_dot_prod under 7 simulated CPU levels: "
                "(a) every len minlen..320 (thorough ..1100) x 64 source offsets x 5 destination offsets + end-flush placement at k=3, (b) 38 "
                "source counts up to 255, (c) rows 1..13 for the high-level entries, (d) all 256 coefficients x all 256 byte values through the "
-               "kernel's main loop and tail, (g) special coefficient matrices (all 0 / all 1 / identity pattern / all 2 / one value per row / only the last column) at k in {1,4,10}, "
+               "kernel's main loop and tail (source and destination pointer arrays write-protected during the call), (g) special coefficient matrices (all 0 / all 1 / identity pattern / all 2 / one value per row / only the last column) at k in {1,4,10}, "
                "(h) the high-level entries at the smallest shapes (k,rows) in {(1,1),(1,2),(2,1),(1,6)} x every length x 2 placements, (f) sparse sources: one source zero except a window of 1/8/24/32/64 bytes at every offset, the others zero or dense; "
                "outputs compared byte for byte with an independent GF(2^8) matrix product, sources read-only or "
                "compared, canaries and inaccessible pages around every buffer.",
@@ -99,7 +101,7 @@ reg("C13", harness="c13_update", level="exploration", deadline=(240, 1500),
     level_text="For each of the 43 multiply-accumulate/update symbols and the dispatched ec_encode_data_update/gf_vect_mad under 7 CPU levels: every "
                "length minlen..320 (thorough ..1100) with accumulate onto non-zero parity at 17 placements, ALL k! update orders for k=1..6 (873 "
                "histories x 3 lengths) each ending with a doubled update that must cancel, k in {10,32,255} in three orders, rows 1..13, the "
-               "full 256x256 multiplication table, sparse sources (zero except a window of 1/8/24/32/64 bytes at every offset), special coefficient matrices; gf_vect_mul_{base,sse,avx,dispatched} for every len 0..700 (2200), also in place (source == destination) at every multiple of 32. Parity is compared with "
+               "full 256x256 multiplication table, 64 / 65 / 100 / 200 parity rows at lengths 1..300 for the high-level entries, sparse sources (zero except a window of 1/8/24/32/64 bytes at every offset), special coefficient matrices; gf_vect_mul_{base,sse,avx,dispatched} for every len 0..700 (2200), also in place (source == destination) at every multiple of 32. Parity is compared with "
                "the reference after EVERY step of every history.",
     level_note="orders for k>6 are three designed ones; data-independence rests on the linearity assumption (dense xorshift data). trusted: ref/ref_gf.h",
     runs=[dict(flavour="sim")],
@@ -115,7 +117,7 @@ reg("C08", harness="c08_raid", level="exploration", deadline=(300, 1500),
                "len<=256 (600), plus two-byte corruptions (first/last data, P, Q x same/other vector x distance 0,1,8,16,32,48,64,128 x equal or different deltas, "
                "the reference deciding per position whether the arrays are still consistent); below-minimum vects with unmapped arrays must be refused without a fault; every pair of lost data blocks is "
                "rebuilt from generated P/Q for vects<=10.",
-    level_note="sources are write-protected during generation; during the check calls on consistent arrays all blocks and the pointer array are. Parity is GF(2)-linear in the sources: impulses + dense data decide all data under the no-data-dependent-branch assumption; "
+    level_note="sources and the pointer array are write-protected during generation; refresh cases pre-fill P/Q with the exact parity of data differing in one byte / one sector / nothing; during the check calls on consistent arrays all blocks and the pointer array are. Parity is GF(2)-linear in the sources: impulses + dense data decide all data under the no-data-dependent-branch assumption; "
                "trusted: ref/ref_gf.h (Q = Horner in 2 over 0x11D).",
     runs=[dict(flavour="sim")],
     rule="case = (implementation, vects, len, placement, data) / (implementation, vects, len, corrupted vector, position, value); "
@@ -291,7 +293,8 @@ reg("C19", harness="c19_headers", level="model_checking", deadline=(300, 1500), 
                "header of a field product the state graph of the real isal_read_gzip_header under ALL chunk sequences from {0,1,2,rest} and 7 "
                "buffer-size modes plus every proper subset of fields discarded (NULL) while the others are collected x 2 growth policies (overflow -> larger buffer keeping delivered bytes -> resume) is explored; recovered fields, "
                "stop position and statuses are checked; zlib reader under every composition of the header; all byte strings up to length 3 as headers; avail_in of 2^31-1 .. 2^32-1 (a whole mapped file "
-               "handed over in one call, zero-page-backed mapping) for both header readers and both inflate entry points.",
+               "handed over in one call, zero-page-backed mapping) for both header readers and both inflate entry points; at every terminal of the reader graphs a copy of the state "
+               "continues (second header parse; empty / 1-byte / rest inflate calls) and must behave like a state that parsed the header in one call.",
     level_note="field values outside the product and chunk sizes outside {0,1,2,rest} are not covered; trusted: ref/ref_hdr.h",
     runs=[dict(flavour="sim", part="writer"), dict(flavour="sim", part="reader")],
     rule="writer case = (field combination, avail_out); reader state = image of inflate_state head + isal_gzip_header + caller buffers + cursor, "
@@ -350,7 +353,7 @@ reg("C15", harness="c15_reentrant", level="model_checking", deadline=(480, 2400)
                "selection - before the first data-plane call of the process, so lazily built state is caught too - the "
                "library's writable segment is made read-only and the whole battery + extra workload runs at 7 CPU levels. (c) contexts, level "
                "buffers, outputs and decoder states pre-filled with 5 patterns give identical results, with a dictionary (set_dict and process_dict+reset_dict, 3 lengths) "
-               "also the caller's struct isal_dict, 6 patterns; inflate (both APIs, 3 kernels) on the stale-decode-"
+               "also the caller's struct isal_dict, 6 patterns; the same input bytes at 9 start offsets (and 2 output offsets) must give identical streams (placement part); inflate (both APIs, 3 kernels) on the stale-decode-"
                "table fault streams gives the same verdict and output on states pre-filled with 5 patterns and on states left behind by decoding a "
                "valid sibling stream (then reset / re-init). (d) every operation history of depth <= 2 "
                "(3) over 21 operations followed by reset or init behaves like a fresh context.",
@@ -375,10 +378,11 @@ reg("C05", harness="c05_memory", level="fault_enumeration", deadline=(600, 3000)
                "output buffer), all objects exact-size; the same harness on the portable-C build under ASan/UBSan and on the NDEBUG "
                "build; and the complete kernel sweeps (CRC, erasure code, update, RAID, zero detect: every length x end-flush and start-flush "
                "placements x every ISA variant) re-run under this property.",
-    level_note="the >4 GiB big-stream part of C11 (stream object front-guarded, noise around offset 2^32) is run under this property as well; an out-of-range access that lands inside another live buffer of the same call needs an offset beyond the 1 MiB guard bands; "
+    level_note="abi probe (props/c05_abi.c): every EC / RAID / constant-multiply entry point once with clean registers and once with bits 63..32 of all int arguments set (84 assembly entry points fail: known finding, listed one by one); the >4 GiB big-stream part of C11 (stream object front-guarded, noise around offset 2^32) is run under this property as well; an out-of-range access that lands inside another live buffer of the same call needs an offset beyond the 1 MiB guard bands; "
                "intra-struct overflows are visible only in the ASan flavour (portable C code, not the assembly kernels).",
     runs=[dict(flavour="sim", part="exact"), dict(flavour="sim", part="revoke"), dict(flavour="sim", part="bigchunks"), dict(flavour="sim", part="bigout"), dict(flavour="rel", part="exact,revoke"), dict(flavour="noarch", part="exact,revoke,bigchunks"),
           dict(flavour="sim", harness="c20_zero"), dict(flavour="sim", harness="c04_crc"), dict(flavour="sim", harness="c03_ec"),
-          dict(flavour="sim", harness="c13_update"), dict(flavour="sim", harness="c08_raid"), dict(flavour="sim", harness="c11_checksum", part="isize")],
+          dict(flavour="sim", harness="c13_update"), dict(flavour="sim", harness="c08_raid"), dict(flavour="sim", harness="c11_checksum", part="isize"),
+          dict(flavour="sim", harness="c05_abi", part="abi", shards=1)],
     rule="case = (entry point, variant / CPU level, input or length, placement); a fault, canary damage or sanitizer report is a violation; "
          "distinct_nontrivial = distinct produced streams, chunk schedules and (implementation, length) sweep points completed.")
